@@ -83,6 +83,13 @@ type views struct {
 	sub2k  view // Sub("n2::in").Unmarshal
 	subM   map[string]any
 	subMOK bool
+	gets   []getView
+}
+
+// getView: Conf.Get(key) for every field below a prefix.
+type getView struct {
+	where string
+	m     map[string]any
 }
 
 type view struct {
@@ -103,6 +110,22 @@ func (ss *session) resolve() (v views) {
 		return v
 	}
 	conf := v.o.conf
+	_, _ = vt.Recover(func() {
+		prefixes := []string{""}
+		if ss.s.Nest {
+			prefixes = append(prefixes, "n1"+confmap.KeyDelimiter, "n2"+confmap.KeyDelimiter+"in"+confmap.KeyDelimiter)
+		}
+		for _, p := range prefixes {
+			gv := getView{where: "/" + strings.ReplaceAll(strings.TrimSuffix(p, confmap.KeyDelimiter), confmap.KeyDelimiter, "/"), m: map[string]any{}}
+			if p == "" {
+				gv.where = ""
+			}
+			for _, f := range ss.s.effective() {
+				gv.m[f.Name] = conf.Get(p + f.Name)
+			}
+			v.gets = append(v.gets, gv)
+		}
+	})
 	if !ss.s.Nest {
 		v.direct.ran = true
 		v.direct.panic, _ = vt.Recover(func() { v.direct.err = conf.Unmarshal(&v.direct.tgt) })
@@ -391,19 +414,13 @@ func judgeX(s *XScript, w *world, exps []expect, v views, round int) (nontrivial
 			if !ok {
 				return nontrivial, true, vt.Failf("expand/tostringmap", "key %s/%s lost: %#v: %v", mm.where, e.name, o.tsm, s.describe())
 			}
-			if e.res.Leak && !probe {
-				if round == 0 && mm.where == "" {
-					cX.Exclude("nested-expanded-value")
-				}
-				continue
-			}
 			if e.res.TEx != "" {
 				continue
 			}
 			if d := diffTree(e.typed, got, mm.where+"/"+e.name); d != "" {
 				sig := "expand/tostringmap"
-				if probe && e.res.Leak && leaks(got, "") != "" {
-					sig = "nested-expanded-value/leak"
+				if leaks(got, "") != "" {
+					sig = "nested-expanded-value/leak" // an internal wrapper escaped into the public view
 				}
 				ff := vt.Failf(sig, "ToStringMap %s: %v", d, s.describe())
 				if !soft(cX, ff, *s) {
@@ -413,10 +430,23 @@ func judgeX(s *XScript, w *world, exps []expect, v views, round int) (nontrivial
 		}
 	}
 
-	// --- Unmarshal views: direct, and through Conf.Sub at one and two levels
-	if anyLeak && !probe {
-		return nontrivial, true, nil
+	// --- Get view: same typed expectation, key by key
+	for _, gv := range v.gets {
+		for _, e := range exps {
+			if e.res.TEx != "" {
+				continue
+			}
+			if d := diffTree(e.typed, gv.m[e.name], gv.where+"/"+e.name); d != "" {
+				sig := "expand/get"
+				if leaks(gv.m[e.name], "") != "" {
+					sig = "nested-expanded-value/leak"
+				}
+				return nontrivial, true, vt.Failf(sig, "Get %s: %v", d, s.describe())
+			}
+		}
 	}
+
+	// --- Unmarshal views: direct, and through Conf.Sub at one and two levels
 	for _, vw := range []struct {
 		name string
 		v    view
@@ -432,7 +462,7 @@ func judgeX(s *XScript, w *world, exps []expect, v views, round int) (nontrivial
 	}
 	if v.subMOK {
 		for _, e := range exps {
-			if e.name == "m" && e.res.TEx == "" && !e.res.Leak {
+			if e.name == "m" && e.res.TEx == "" {
 				if d := diffTree(e.typed, v.subM, "/n1/m"); d != "" {
 					return nontrivial, true, vt.Failf("expand/sub/tostringmap", "Sub(n1::m).ToStringMap %s: %v", d, s.describe())
 				}
@@ -452,8 +482,8 @@ func judgeView(s *XScript, exps []expect, name string, vw view, anyLeak bool) (f
 	}
 	if vw.panic != nil {
 		sig := "panic/unmarshal"
-		if probe && anyLeak {
-			sig = "nested-expanded-value/panic"
+		if anyLeak {
+			sig = "nested-expanded-value/panic" // the case holds a wrapped value below a whole-value map/list
 		}
 		ff := vt.Failf(sig, "Unmarshal (%s) panicked: %v: %v", name, vw.panic, s.describe())
 		if !soft(cX, ff, *s) {
@@ -476,29 +506,27 @@ func judgeView(s *XScript, exps []expect, name string, vw view, anyLeak bool) (f
 	tv := reflect.ValueOf(vw.tgt)
 	for _, e := range exps {
 		present[e.name] = true
-		if e.res.Leak && !probe {
-			continue
-		}
 		got := fieldOf(tv, e.name)
 		var want any
 		skip := false
 		switch e.kind {
 		case "str":
-			want, skip = e.str, e.res.SEx != ""
+			want, skip = e.str.project(0), e.res.SEx != ""
 		case "int", "bool", "float", "mapany", "listany":
 			want, skip = e.typed, e.res.TEx != ""
 			if want == nil && !skip {
 				want = zeroOf(e.name)
 			}
 		case "mapstr", "liststr":
-			want, skip = e.str, e.res.SEx != ""
+			want, skip = e.str.project(1), e.res.SEx != "" || e.res.LSEx != "" || e.res.TEx != ""
+		case "mapliststr":
+			want, skip = e.str.project(2), e.res.SEx != "" || e.res.LSEx != "" || e.res.TEx != ""
 		case "sub":
 			skip = e.res.SEx != "" || e.res.TEx != ""
 			tm, _ := e.typed.(map[string]any)
-			sm, _ := e.str.(map[string]any)
 			sub := map[string]any{"s": "", "i": 0, "l": nil}
-			if v, ok := sm["s"]; ok {
-				sub["s"] = v
+			if v, ok := e.str.M["s"]; ok {
+				sub["s"] = v.project(0)
 			}
 			if v, ok := tm["i"]; ok {
 				sub["i"] = v
@@ -513,7 +541,7 @@ func judgeView(s *XScript, exps []expect, name string, vw view, anyLeak bool) (f
 		}
 		if d := diffTree(want, got, "/"+e.name); d != "" {
 			sig := pre + "/" + e.kind
-			if probe && e.res.Leak {
+			if leaks(got, "") != "" {
 				sig = "nested-expanded-value/leak"
 			}
 			ff := vt.Failf(sig, "Unmarshal (%s) %s: %v", name, d, s.describe())
